@@ -93,6 +93,9 @@ pub struct TlsWorld {
     pub ssl_seq: u8,
     /// plaintext the client sends once the TLS session is up (handshake response + commands)
     pub app_script: Vec<u8>,
+    /// end offsets of the pieces of `app_script` the client hands to its TLS layer one write at a
+    /// time (each write becomes its own record); empty = everything in one write
+    pub app_chunks: Vec<usize>,
     /// garbage to send instead of a ClientHello (malformed-input workloads)
     pub instead_of_hello: Option<Vec<u8>>,
     /// stop sending after this many raw client bytes (truncated ClientHello etc.)
@@ -134,6 +137,7 @@ impl TlsWorld {
             sslreq,
             ssl_seq: 1,
             app_script,
+            app_chunks: vec![],
             instead_of_hello: None,
             raw_limit: None,
             close_notify: true,
@@ -253,8 +257,17 @@ impl TlsWorld {
         if self.st == St::Handshaking && !self.conn.is_handshaking() {
             self.st = St::Established;
             let app = self.app_script.clone();
-            if self.conn.writer().write_all(&app).is_err() {
-                self.client_error = Some("client could not queue application data".into());
+            let mut at = 0;
+            let mut ends = self.app_chunks.clone();
+            ends.push(app.len());
+            for e in ends {
+                let e = e.min(app.len());
+                if e > at {
+                    if self.conn.writer().write_all(&app[at..e]).is_err() {
+                        self.client_error = Some("client could not queue application data".into());
+                    }
+                    at = e;
+                }
             }
             self.sent_app = true;
         }
